@@ -1,14 +1,20 @@
 /* C06 - DVB VBI multiplexer: output conforms to EN 300 472 / EN 301 775 / ISO 13818-1 and
  *       demultiplexes (real demux) to its input.
- * Real units: src/dvb_mux.c (included), src/dvb_demux.c + src/hamm.c (linked).
+ * Real units: src/dvb_mux.c and src/dvb_demux.c (both included textually: statics reachable), src/hamm.c (linked).
+ * The two units define file-local enum constants of the same name (VBI_ERR_BUFFER_OVERFLOW, VBI_ERR_RAW_BUFFER_OVERFLOW);
+ * the multiplexer's are renamed by macro while dvb_mux.c is read (no other textual change).
  * Grid parameters (-D): NL lines per frame, BUF data-unit buffer size, FIXED data_identifier class,
  *                       TS, PMIN, PMAX, OBUF (coroutine output buffer size).
  */
 #include "verif.h"
 #include "ref_codes.h"
 #include "c06_env.h"
+#define VBI_ERR_BUFFER_OVERFLOW MUX_VBI_ERR_BUFFER_OVERFLOW
+#define VBI_ERR_RAW_BUFFER_OVERFLOW MUX_VBI_ERR_RAW_BUFFER_OVERFLOW
 #include "src/dvb_mux.c"
-#include "src/dvb_demux.h"
+#undef VBI_ERR_BUFFER_OVERFLOW
+#undef VBI_ERR_RAW_BUFFER_OVERFLOW
+#include "src/dvb_demux.c"
 
 #ifndef NL
 #define NL 2
@@ -180,6 +186,26 @@ static void check_stuffing_tail(const uint8_t *b, unsigned used, unsigned o, int
   V_ASSERT(o == used, "st_tail_ends_at_buffer_end");
 }
 
+/* Data-unit demultiplexing of one packet payload.  Default: the real _vbi_dvb_demultiplex_sliced().
+ * With ENV_LOOP_MEM (concrete-structure runs) its three statements are replayed on a static zero frame, because
+ * CLEAR(frame) on a stack object through the byte-loop memset leaves frame.raw/log.mask non-constant for symex and
+ * all raw-VBI paths would be explored (measured: a 1000 iteration memcpy in demux_samples); the call into the real
+ * extract_data_units() is the same. */
+static vbi_bool rt_demux(vbi_sliced *sliced, unsigned *n_lines, unsigned max_lines, const uint8_t **buffer, unsigned *buffer_left)
+{
+#ifdef ENV_LOOP_MEM
+  static const struct frame zero_frame; struct frame frame; int err;
+  if (NULL == *buffer || *buffer_left < 2) return FALSE;
+  frame = zero_frame;
+  frame.sliced_begin = sliced; frame.sliced_end = sliced + max_lines; frame.sp = sliced;
+  err = extract_data_units(&frame, buffer, buffer_left);
+  *n_lines = (unsigned) (frame.sp - frame.sliced_begin);
+  return 0 == err;
+#else
+  return _vbi_dvb_demultiplex_sliced(sliced, n_lines, max_lines, buffer, buffer_left);
+#endif
+}
+
 /* what the real demultiplexer must return for an accepted line */
 static void check_demuxed(const vbi_sliced *o, const vbi_sliced *s, int k)
 {
@@ -276,7 +302,7 @@ V_HARNESS(h_mux_sliced)
 #ifdef WITH_DEMUX
   if (used >= 2) {
     const uint8_t *bp = buf; unsigned bl = used, n = 99; vbi_bool dok;
-    dok = _vbi_dvb_demultiplex_sliced(out, &n, NL + 1, &bp, &bl);
+    dok = rt_demux(out, &n, NL + 1, &bp, &bl);
     V_ASSERT(dok, "rt_demux_accepts");
     V_ASSERT(n == nacc, "rt_same_number_of_lines");
     V_ASSERT(bl == 0 && bp == buf + used, "rt_demux_consumed_all");
@@ -329,26 +355,33 @@ static vbi_bool rec_cb(vbi_dvb_mux *mx, void *ud, const uint8_t *packet, unsigne
   return rec_calls != rec_fail_at;
 }
 
-/* R2(e): after the real constructor ran, the 65508 byte packet buffer (4 + MAX_PES_PACKET_SIZE) is replaced by an
- * exact-size harness array for the configured max_packet_size: same contents (TS header room + initialised
- * PES header), any access beyond 4 + max_packet_size becomes a bounds failure. */
-static uint8_t small_packet[4 + PMAX];
-static void repoint_packet(vbi_dvb_mux *mx)
+/* Multiplexer objects.
+ * REAL_CTOR (h_mux_ctor, h_mux_config): the real vbi_dvb_pes_mux_new/vbi_dvb_ts_mux_new.
+ * Otherwise (R7 + R2(e)): the post-constructor state is constructed directly in a static object - zero, the five fields
+ * the constructor sets, the real init_pes_packet_header() - with an exact-size packet buffer of 4 + PMAX bytes instead
+ * of the malloc'ed 65508 bytes (any access beyond 4 + max_packet_size becomes a bounds failure).  Reason (measured):
+ * CLEAR(*mx) on the malloc'ed object leaves mx->pid etc. non-constant for symex, so both the PES and the TS output path
+ * were explored (mux_packets: no verdict in 400 s).  h_mux_ctor decides that the real constructors produce exactly this
+ * state (every field, first 50 packet bytes). */
+static uint8_t small_packet[2][4 + PMAX];
+static struct _vbi_dvb_mux MXS[2];
+static unsigned mxs_used;
+
+static vbi_dvb_mux *construct_mux(unsigned pid, int ts, vbi_dvb_mux_cb *cb, void *ud)
 {
-#ifndef C06_REAL_PACKET_BUFFER
-  unsigned i;
-  for (i = 0; i < 4 + 46; i++) small_packet[i] = mx->packet[i];
-  free(mx->packet);
-  mx->packet = small_packet;
-#endif
+  static const struct _vbi_dvb_mux zero_mux;
+  vbi_dvb_mux *mx = &MXS[mxs_used & 1];
+  if (ts && (pid <= 0x000F || pid >= 0x1FFF)) return NULL;
+  *mx = zero_mux;
+  mx->min_packet_size = 184; mx->max_packet_size = 65504; mx->data_identifier = 0x10;
+  mx->packet = small_packet[mxs_used & 1];
+  mxs_used++;
+  init_pes_packet_header(mx);
+  mx->callback = cb; mx->user_data = ud;
+  if (ts) mx->pid = pid;
+  return mx;
 }
-static void release_mux(vbi_dvb_mux *mx)
-{
-#ifndef C06_REAL_PACKET_BUFFER
-  mx->packet = NULL;
-#endif
-  vbi_dvb_mux_delete(mx);
-}
+static void release_mux(vbi_dvb_mux *mx) { (void) mx; }
 
 /* PES header per ISO 13818-1 2.4.3.6/2.4.3.7 and EN 300 472 4.2 / EN 301 775 4.3 */
 static void check_pes_header(const uint8_t *pes, unsigned size, int64_t pts, unsigned di)
@@ -400,14 +433,13 @@ static int frame_model(const vbi_sliced *sl, uint32_t mask, int fixed, unsigned 
 
 static vbi_dvb_mux *new_mux_cb(unsigned pid, unsigned di, vbi_dvb_mux_cb *cb, void *ud)
 {
-  vbi_dvb_mux *mx = TS ? vbi_dvb_ts_mux_new(pid, cb, ud) : vbi_dvb_pes_mux_new(cb, ud);
+  vbi_dvb_mux *mx = construct_mux(pid, TS, cb, ud);
   V_ASSERT(mx != NULL, "mux_new");
   rec_mx = mx;
   V_ASSERT(vbi_dvb_mux_set_pes_packet_size(mx, PMIN, PMAX), "set_size_ok");
   V_ASSERT(vbi_dvb_mux_get_min_pes_packet_size(mx) == PMIN && vbi_dvb_mux_get_max_pes_packet_size(mx) == PMAX, "get_size");
   V_ASSERT(vbi_dvb_mux_set_data_identifier(mx, di), "set_di_ok");
   V_ASSERT(vbi_dvb_mux_get_data_identifier(mx) == di, "get_di");
-  repoint_packet(mx);
   return mx;
 }
 static vbi_dvb_mux *new_mux(unsigned pid, unsigned di) { return new_mux_cb(pid, di, rec_cb, &rec_len); }
@@ -419,6 +451,9 @@ static void in_config(unsigned *pid, unsigned *di)
   *di = FIXED ? (0x10 | (*di & 15)) : (*di & 2) ? 0x9B : (0x99 + (*di & 1));  /* all legal data_identifiers of the class */
 #ifdef DI
   *di = DI;
+#endif
+#ifdef PIDV
+  *pid = PIDV;
 #endif
 }
 
@@ -441,11 +476,40 @@ static unsigned gather_pes(unsigned from, unsigned ncalls, unsigned pid, unsigne
   return ncalls * 184;
 }
 
+/* ---- the real demultiplexer object for the end-to-end run: static zero object + real vbi_dvb_demux_reset() (R7),
+ * R2(e): frame output array and (PES mode) wrap-around buffer re-pointed to exact-size harness arrays; in TS mode the
+ * unit is compiled with pes_buffer scaled to PESCAP_SCALED bytes (runner patch, SCALED_PES_BUFFER). */
+#define ROUTN (NL + 2)
+static vbi_dvb_demux RDX;
+static vbi_sliced ROUT[ROUTN];
+static uint8_t RPES[PMAX + 8];
+static struct { unsigned calls, n; int64_t pts; vbi_sliced lines[ROUTN]; } RLOG;
+static vbi_bool rdx_cb(vbi_dvb_demux *dx, void *ud, const vbi_sliced *sliced, unsigned int n, int64_t pts)
+{
+  unsigned i;
+  V_ASSERT(dx == &RDX && ud == (void *) &RLOG && sliced == ROUT && n <= ROUTN, "demux_cb_args");
+  if (RLOG.calls == 0) { RLOG.n = n; RLOG.pts = pts; for (i = 0; i < ROUTN; i++) if (i < n) RLOG.lines[i] = sliced[i]; }
+  RLOG.calls++;
+  return TRUE;
+}
+static void setup_demux(unsigned pid)
+{
+  vbi_dvb_demux_reset(&RDX);
+  RDX.demux_packet = TS ? demux_ts_packet : demux_pes_packet;
+  RDX.ts_pid = pid; RDX.callback = rdx_cb; RDX.user_data = &RLOG;
+  RDX.frame.sliced_begin = ROUT; RDX.frame.sliced_end = ROUT + ROUTN; RDX.frame.sp = ROUT;
+#ifndef SCALED_PES_BUFFER
+  if (!TS) { RDX.pes_wrap.buffer = RPES; RDX.pes_wrap.bp = RPES; }
+#endif
+  RLOG.calls = 0;
+}
+#define PTS33(x) ((int64_t) ((uint64_t) (x) & 0x1FFFFFFFFull))
+
 V_HARNESS(h_mux_packets)
 {
-  static vbi_sliced sl[NL], out[NL + 1], sl2[1];
+  static vbi_sliced sl[NL], sl2[1];
   uint8_t padj[NL]; unsigned tix, acc[NL], nacc = 0, pid, di, total, size, o, j, calls1, len1;
-  uint32_t mask; int64_t pts, pts2; vbi_bool ok; int good; vbi_dvb_mux *mx;
+  uint32_t mask; int64_t pts, pts2; vbi_bool ok, ok1; int good; vbi_dvb_mux *mx;
 
   V_INIT();
   in_bytes(sl, sizeof sl); mask = in_u32(); pts = (int64_t) in_u64(); pts2 = (int64_t) in_u64();
@@ -455,7 +519,7 @@ V_HARNESS(h_mux_packets)
 
   rec_len = rec_calls = 0;
   mx = new_mux(pid, di);
-  ok = vbi_dvb_mux_feed(mx, sl, NL, mask, NULL, NULL, pts);
+  ok1 = ok = vbi_dvb_mux_feed(mx, sl, NL, mask, NULL, NULL, pts);
   good = frame_model(sl, mask, FIXED, &total);
   V_ASSERT(ok == (good && total <= PMAX - 46), "accepted_iff_legal_and_fits");
   if (!ok) {
@@ -469,18 +533,11 @@ V_HARNESS(h_mux_packets)
       check_pes_header(pes, size, pts, di);
       o = 46 + walk_frame(pes + 46, size - 46, size - 46, sl, NL, mask, FIXED, 1, padj, &nacc, acc);
       check_stuffing_tail(pes, size, o, FIXED, tix, PES_TAIL_UNITS);
-#ifdef WITH_DEMUX
-      { const uint8_t *bp = pes + 46; unsigned bl = size - 46, n = 99; vbi_bool dok;
-        dok = _vbi_dvb_demultiplex_sliced(out, &n, NL + 1, &bp, &bl);
-        V_ASSERT(dok && n == nacc && bl == 0, "rt_demux_accepts_all");
-        for (j = 0; j < NL; j++)
-          if (j < nacc && j < n) check_demuxed(&out[j], &sl[acc[j]], svc_class(sl[acc[j]].id)); }
-#endif
       if (size > 184) V_REACH("two_ts_packets");
       if (nacc == NL) V_REACH("all_lines");
     }
   }
-  /* the multiplexer stays usable: a second, valid frame (one Teletext line) is accepted; TS continuity goes on */
+  /* the multiplexer stays usable: a second, valid frame (one Teletext line 7) is accepted; TS continuity goes on */
   calls1 = rec_calls; len1 = rec_len;
   sl2[0].id = VBI_SLICED_TELETEXT_B; sl2[0].line = 7;
   ok = vbi_dvb_mux_feed(mx, sl2, 1, VBI_SLICED_TELETEXT_B, NULL, NULL, pts2);
@@ -488,7 +545,6 @@ V_HARNESS(h_mux_packets)
   V_ASSERT(rec_calls == calls1 + PMIN / 184 || !TS, "second_frame_ts_packets");
   V_ASSERT(rec_len == len1 + (TS ? (PMIN / 184) * 188 : PMIN), "second_frame_min_size");
   if (len1 + PMIN / 184 * 188 <= RECMAX) {
-    static vbi_sliced one[1]; unsigned n1 = 0, a1[NL]; uint8_t pj[NL];
     size = gather_pes(len1, rec_calls - calls1, pid, calls1);
     V_ASSERT(size == PMIN, "second_frame_size");
     if (size == PMIN) {
@@ -497,37 +553,52 @@ V_HARNESS(h_mux_packets)
       for (j = 0; j < 42; j++) V_ASSERT(pes[50 + j] == ref_rev8(sl2[0].data[j]), "second_frame_payload");
       check_stuffing_tail(pes, size, 46 + 46, FIXED, tix, PES_TAIL_UNITS);
     }
-    (void) one; (void) n1; (void) a1; (void) pj;
   }
   release_mux(mx);
+
+#ifdef WITH_DEMUX
+  /* the library's demultiplexer on everything that was emitted: frame 1 (if accepted) comes back at the frame boundary
+   * (line 7 of frame 2 is not above the last line of frame 1) with its PTS; frame 2 is pending with its PTS */
+  setup_demux(pid);
+  V_ASSERT(vbi_dvb_demux_feed(&RDX, rec, rec_len), "e2e_demux_feed_ok");
+  if (ok1 && nacc > 0) {
+    V_ASSERT(RLOG.calls == 1, "e2e_one_frame_delivered");
+    V_ASSERT(RLOG.n == nacc, "e2e_same_number_of_lines");
+    V_ASSERT(RLOG.pts == PTS33(pts), "e2e_frame_pts");
+    for (j = 0; j < NL; j++)
+      if (j < nacc && j < RLOG.n) check_demuxed(&RLOG.lines[j], &sl[acc[j]], svc_class(sl[acc[j]].id));
+    V_REACH("e2e_frame");
+  } else {
+    V_ASSERT(RLOG.calls == 0, "e2e_no_frame_from_rejected_input");
+  }
+  V_ASSERT(!RDX.new_frame && RDX.frame.sp == ROUT + 1 && RDX.frame_pts == PTS33(pts2), "e2e_second_frame_pending_with_pts");
+  check_demuxed(&ROUT[0], &sl2[0], K_TTX);
+#endif
   V_END();
 }
 
-/* (c) rejected frame: zero bytes, multiplexer state unchanged (every field compared), next frame accepted
- *     -- decided inside h_mux_packets ("rejected" witness + second feed) plus the field comparison here */
+/* (c) rejected frame: zero bytes, multiplexer state unchanged (every field compared) at an arbitrary continuity counter */
 V_HARNESS(h_mux_reject_state)
 {
   static vbi_sliced sl[NL];
   unsigned pid, di, total; uint32_t mask; int64_t pts; vbi_bool ok; int good; vbi_dvb_mux *mx;
-  struct _vbi_dvb_mux before;
+  unsigned b_min, b_max, b_di, b_pid, b_cc, b_off, b_end; uint8_t *b_packet; vbi_dvb_mux_cb *b_cb; void *b_ud;
   V_INIT();
   in_bytes(sl, sizeof sl); mask = in_u32(); pts = (int64_t) in_u64(); in_config(&pid, &di);
   fix_ids(sl, &mask);
   rec_len = rec_calls = 0;
   mx = new_mux(pid, di);
   mx->continuity_counter = in_u8();   /* arbitrary point in the TS stream */
-  before = *mx;
+  b_min = mx->min_packet_size; b_max = mx->max_packet_size; b_di = mx->data_identifier; b_pid = mx->pid;
+  b_cc = mx->continuity_counter; b_off = mx->cor_offset; b_end = mx->cor_end; b_packet = mx->packet; b_cb = mx->callback; b_ud = mx->user_data;
   good = frame_model(sl, mask, FIXED, &total);
   V_ASSUME(!(good && total <= PMAX - 46));
   ok = vbi_dvb_mux_feed(mx, sl, NL, mask, NULL, NULL, pts);
   V_ASSERT(!ok, "bad_frame_rejected");
   V_ASSERT(rec_calls == 0 && rec_len == 0, "rejected_frame_emits_nothing");
-  V_ASSERT(mx->packet == before.packet && mx->min_packet_size == before.min_packet_size
-           && mx->max_packet_size == before.max_packet_size && mx->data_identifier == before.data_identifier
-           && mx->raw_samples_left == 0 && mx->pid == before.pid
-           && mx->continuity_counter == before.continuity_counter && mx->cor_offset == before.cor_offset
-           && mx->cor_end == before.cor_end && mx->callback == before.callback && mx->user_data == before.user_data,
-           "rejected_frame_state_unchanged");
+  V_ASSERT(mx->packet == b_packet && mx->min_packet_size == b_min && mx->max_packet_size == b_max && mx->data_identifier == b_di
+           && mx->raw_samples_left == 0 && mx->pid == b_pid && mx->continuity_counter == b_cc && mx->cor_offset == b_off
+           && mx->cor_end == b_end && mx->callback == b_cb && mx->user_data == b_ud, "rejected_frame_state_unchanged");
   release_mux(mx);
   V_END();
 }
@@ -570,8 +641,32 @@ V_HARNESS(h_mux_cor_equiv)
     V_REACH("accepted");
   } else {
     V_ASSERT(cor_len == 0, "cor_rejected_emits_nothing");
+    V_ASSERT(s >= sl && s < sl + NL && sleft == (unsigned) (sl + NL - s), "cor_rejected_names_line");
   }
   release_mux(mx2);
+  V_END();
+}
+
+/* the real constructors produce exactly the state construct_mux() builds (R7 made a checked statement) */
+V_HARNESS(h_mux_ctor)
+{
+  unsigned pid, i; int ts; vbi_dvb_mux *r, *c;
+  V_INIT();
+  pid = in_u32(); ts = in_bool();
+  r = ts ? vbi_dvb_ts_mux_new(pid, rec_cb, &rec_len) : vbi_dvb_pes_mux_new(rec_cb, &rec_len);
+  c = construct_mux(pid, ts, rec_cb, &rec_len);
+  V_ASSERT((r == NULL) == (c == NULL), "ctor_same_refusal");
+  if (r != NULL && c != NULL) {
+    V_ASSERT(r->min_packet_size == c->min_packet_size && r->max_packet_size == c->max_packet_size && r->data_identifier == c->data_identifier
+             && r->raw_samples_left == c->raw_samples_left && r->raw_line == c->raw_line && r->raw_offset == c->raw_offset
+             && r->raw_samples_per_line == c->raw_samples_per_line && r->pid == c->pid && r->continuity_counter == c->continuity_counter
+             && r->cor_offset == c->cor_offset && r->cor_end == c->cor_end && r->cor_ts_left == c->cor_ts_left
+             && r->callback == c->callback && r->user_data == c->user_data && r->log.mask == c->log.mask && r->log.fn == c->log.fn, "ctor_same_fields");
+    V_ASSERT(r->packet != NULL, "ctor_packet_allocated");
+    for (i = 4; i < 4 + 45; i++) if (i != 8 && i != 9) V_ASSERT(r->packet[i] == c->packet[i], "ctor_same_header_bytes");
+    vbi_dvb_mux_delete(r);
+    V_REACH("constructed");
+  }
   V_END();
 }
 
